@@ -17,8 +17,9 @@ REPO = "/repo"
 BUILD = os.path.join(VERIF, ".build")
 LEAN = os.path.join(VERIF, "lean")
 HARNESS = os.path.join(VERIF, "harness")
-EVIDENCE = os.path.join(VERIF, "evidence")
-REPLAYS = os.path.join(VERIF, "replays")
+# (mutation experiments redirect these so that the committed evidence is not overwritten; see tools/with_patch.sh)
+EVIDENCE = os.environ.get("VERIF_EVIDENCE_DIR", os.path.join(VERIF, "evidence"))
+REPLAYS = os.environ.get("VERIF_REPLAYS_DIR", os.path.join(VERIF, "replays"))
 KNOWN = os.path.join(VERIF, "known-findings.txt")
 GUARD = "dinfuehr_dora_verif"
 
